@@ -46,6 +46,20 @@
 (*     abandoned after request_timeout and counts as a time-out;            *)
 (*  R7 never panics.                                                        *)
 (*                                                                         *)
+(* ReqwestHttpClient::get_cdn_content ("get CDN content with automatic      *)
+(* failover"; CdnConfig::servers "are tried in priority order (lower        *)
+(* priority values first)"; http.rs):                                       *)
+(*  H1 servers are contacted in ascending priority (ties: in the order      *)
+(*     given), each at most once, the next one only after the one before    *)
+(*     failed (error status, no answer);                                    *)
+(*  H2 the result is the answer of the first server that succeeds; Err only *)
+(*     after every server failed;                                           *)
+(*  H3 with a range every request carries `Range: bytes=s-e` and Ok means   *)
+(*     exactly the requested bytes of the resource (RangePlan!Body); a      *)
+(*     server that ignores Range and sends the whole resource either counts *)
+(*     as failed (StreamingError::RangeNotSupported exists for it) or its   *)
+(*     answer is cut to the range.                                          *)
+(*                                                                         *)
 (* Quantifier: every outcome script (success, time-out, hang, HTTP status,  *)
 (* limit / unavailable / malformed errors) x server lists x valid retry     *)
 (* configurations x histories of calls on one system (health persists).     *)
@@ -189,4 +203,38 @@ RecExplained(cfg, X, e, calls, redirect, strictCap) ==
 \* every state compatible with the observed counts (after an unexplained call)
 RecResync(hosts, ob) == {[down |-> D, tot |-> [h \in hosts |-> ob.srv[h][1]], fl |-> [h \in hosts |-> ob.srv[h][2]]] :
                            D \in SUBSET hosts}
+
+\* ---- H1-H3: ordered fail-over of ReqwestHttpClient::get_cdn_content ---------------------------------
+\* cfg.servers = <<[h, prio, beh], ..>>; beh: "ok206" honours Range, "ok200" ignores it (whole resource),
+\* "h404" | "h429" | "h500" | "h503" error statuses, "close" no answer.  Resource: ResLen bytes, byte x = x.
+ResLen == 32
+RECURSIVE InsertPrio(_, _)
+InsertPrio(q, r) == IF q = <<>> THEN <<r>>
+                    ELSE IF q[Len(q)].prio <= r.prio THEN Append(q, r)
+                    ELSE Append(InsertPrio(SubSeq(q, 1, Len(q) - 1), r), q[Len(q)])
+RECURSIVE SortPrio(_)
+SortPrio(q) == IF q = <<>> THEN <<>> ELSE InsertPrio(SortPrio(SubSeq(q, 1, Len(q) - 1)), q[Len(q)])   \* stable
+CdnChain(cfg) == SortPrio(cfg.servers)
+CdnFails(b) == b \in {"h404", "h429", "h500", "h503", "close"}
+\* the bytes a correct client returns for `range` (<<>>: the whole resource), as a sequence of byte values
+Wanted(range) == IF range = <<>> THEN [j \in 1..ResLen |-> j - 1] ELSE [j \in 1..(range[2] - range[1] + 1) |-> range[1] + j - 1]
+Whole == [j \in 1..ResLen |-> j - 1]
+\* outcomes the statement permits from position i of the chain on: [n |-> servers contacted, ok, body, dev]
+RECURSIVE CdnWalk(_, _, _)
+CdnWalk(chain, range, i) ==
+  IF i > Len(chain) THEN {[n |-> Len(chain), ok |-> FALSE, body |-> <<>>, dev |-> ""]}
+  ELSE LET b == chain[i].beh
+           stop(body, dev) == [n |-> i, ok |-> TRUE, body |-> body, dev |-> dev]
+       IN IF CdnFails(b) THEN CdnWalk(chain, range, i + 1)
+          ELSE IF b = "ok206" \/ range = <<>> THEN {stop(Wanted(range), "")}
+          \* a whole-resource answer to a range request: cut it, or count the server as failed;
+          \* FX02i: the whole resource is returned as if it were the range
+          ELSE {stop(Wanted(range), ""), stop(Whole, "FX02i")} \cup CdnWalk(chain, range, i + 1)
+CdnMatches(cfg, e, w) ==
+  LET chain == CdnChain(cfg) IN
+  /\ e.obs.contacted = [j \in 1..w.n |-> chain[j].h]                                \* H1
+  /\ e.obs.hdr_ok                                                                   \* H3 (request)
+  /\ IF w.ok THEN e.res.kind = "Ok" /\ e.res.body = w.body /\ e.res.len = Len(w.body)   \* H2, H3
+     ELSE e.res.kind = "Err"
+CdnExplained(cfg, e, devs) == {w \in CdnWalk(CdnChain(cfg), e.range, 1) : w.dev \in devs /\ CdnMatches(cfg, e, w)}
 =============================================================================
